@@ -52,16 +52,16 @@ ProgQuick(u) ==
   \o Fam(AlphaMutex, <<3, 1, 1>>, 3, MainsLate)
   \o Fam(AlphaLife,  <<2, 1, 0>>, 1, MainsLife)
 
-ProgT1(u) == Fam(AlphaChan, <<3, 3, 3>>, 3, NoMain)
-ProgT2(u) == Fam(AlphaMutex, <<3, 3, 3>>, 3, NoMain)
-ProgT3(u) == Fam(AlphaSem, <<3, 3, 3>>, 3, NoMain)
+ProgT1(u) == Fam(AlphaChan, <<3, 3, 2>>, 3, NoMain)
+ProgT2(u) == Fam(AlphaMutex, <<3, 3, 2>>, 3, NoMain) \o Fam(AlphaMutex, <<6, 2, 0>>, 2, NoMain)
+ProgT3(u) == Fam(AlphaSem, <<3, 3, 2>>, 3, NoMain)
 ProgT4(u) == Fam(AlphaChan, <<2, 2, 2>>, 3, MainsUpTo(MainFirst, 2)) \o Fam(AlphaSem, <<2, 2, 2>>, 3, MainsUpTo(MainFirst, 2))
-ProgT5(u) == Fam(AlphaMutex, <<3, 2, 1>>, 3, MainsUpTo(MainSecond, 3)) \o Fam(AlphaMutex, <<6, 2, 0>>, 2, MainsUpTo(MainSecond, 1))
-ProgT6(u) == Fam(AlphaBcast, <<2, 2, 2>>, 3, MainsUpTo(MainFirst, 2)) \o Fam(AlphaCond, <<3, 3, 0>>, 2, MainsUpTo(MainFirst, 1))
-ProgT7(u) == Fam(AlphaJoin, <<2, 2, 2>>, 2, MainsUpTo(MainFull, 2)) \o Fam(AlphaLife, <<3, 3, 0>>, 1, MainsUpTo(MainFirst, 2))
-ProgT8(u) == Fam(AlphaMixed, <<2, 2, 1>>, 3, MainsUpTo(MainFirst, 1))
+ProgT5(u) == Fam(AlphaMutex, <<3, 2, 1>>, 3, MainsUpTo(MainSecond, 2) \cup MainsLate)
+ProgT6(u) == Fam(AlphaBcast, <<2, 2, 2>>, 3, MainsUpTo(MainFirst, 2)) \o Fam(AlphaCond, <<3, 2, 0>>, 2, MainsUpTo(MainFirst, 1))
+ProgT7(u) == Fam(AlphaJoin, <<2, 2, 1>>, 2, MainsUpTo(MainFirst, 1)) \o Fam(AlphaLife, <<2, 2, 0>>, 1, MainsUpTo(MainFirst, 2))
+ProgT8(u) == Fam(AlphaMixed, <<2, 2, 0>>, 2, MainsUpTo(MainFirst, 1))
 \* semaphores that start at 1, conditions with "any" logic
-ProgT9(u) == Fam(AlphaSem, <<2, 2, 2>>, 3, MainsUpTo(MainFirst, 1)) \o Fam(AlphaCond, <<3, 3, 0>>, 2, MainsUpTo(MainFirst, 1))
+ProgT9(u) == Fam(AlphaSem, <<2, 2, 2>>, 3, MainsUpTo(MainFirst, 1)) \o Fam(AlphaCond, <<3, 2, 0>>, 2, MainsUpTo(MainFirst, 1))
 
 \* as-found wake-up discipline: "two waiters + two back-to-back sends / releases", "a holder that re-locks before the
 \* woken waiter runs" (the waiter is woken by the first unlock, finds the mutex held again, waits without being
@@ -79,9 +79,13 @@ ProgAsFoundCleanup(u) == Fam(AlphaSpin, <<2, 1, 0>>, 1, NoMain)
 \* TLC evaluates every constant-level definition without parameters at start-up; the program sequences therefore take a
 \* dummy parameter and the configuration selects ONE of them by name (Programs <- ProgSel)
 CONSTANT Which
-SSx(r) == SeqsUpTo(AlphaChan, <<1,1,2>>[r])
-FamX(alpha) == SetToSeq({[scripts |-> <<a, b, c>>, main |-> WithTail(<<Op("Create", 1, 1), Op("Create", 2, 1), Op("Create", 3, 1)>>)] : a \in SeqsUpTo(alpha, 1), b \in SeqsUpTo(alpha, 1), c \in SeqsUpTo(alpha, 2)})
-ProgSel == FamX(AlphaChan)
+ProgSel == CASE Which = "ProgQuick" -> ProgQuick(0)
+             [] Which = "ProgT1" -> ProgT1(0) [] Which = "ProgT2" -> ProgT2(0) [] Which = "ProgT3" -> ProgT3(0)
+             [] Which = "ProgT4" -> ProgT4(0) [] Which = "ProgT5" -> ProgT5(0) [] Which = "ProgT6" -> ProgT6(0)
+             [] Which = "ProgT7" -> ProgT7(0) [] Which = "ProgT8" -> ProgT8(0) [] Which = "ProgT9" -> ProgT9(0)
+             [] Which = "ProgRelock" -> ProgRelock(0) [] Which = "ProgAsFoundChan" -> ProgAsFoundChan(0)
+             [] Which = "ProgAsFoundSem" -> ProgAsFoundSem(0) [] Which = "ProgAsFoundWake" -> ProgAsFoundWake(0)
+             [] Which = "ProgAsFoundCleanup" -> ProgAsFoundCleanup(0)
 
 Zeros == [i \in PP |-> 0]
 Ones == [i \in PP |-> 1]
